@@ -1,181 +1,41 @@
 // Package c13 decides C13: Chunk, Windowed and Pairs partition a slice exactly.
+//
+// One generic engine (engine.go) checks all six functions on a case
+// (element kind, n, size, position of the slice inside its backing array);
+// the units below differ only in how cases are produced:
+//
+//	C13.enum    exhaustive small grid, int elements, sizes next to MaxInt
+//	C13.rand    rapid: every element kind, named/unnamed slice types, several size classes
+//	C13.big     enumerated thresholds: n / size / number of pieces around every power of two
+//	C13.types   exhaustive small grid for every element kind (non-comparable, NaN, nil, wide, zero-size ...)
+//	C13.zst     zero-size element types: small grid + lengths around 2^31 .. MaxInt
+//	C13.nested  the functions called again from inside the callbacks, results of earlier calls checked after later calls
 package c13
 
 import (
-	"fmt"
 	"math"
+	"math/bits"
+	"strconv"
 	"testing"
 
-	"gopkg.in/typ.v4/slices"
 	"pgregory.net/rapid"
 	"verifharness/internal/pbt"
 )
 
-type Case struct {
-	N     int `json:"n"`     // slice length; elements are their own indices
-	Size  int `json:"size"`  // >= 1
-	Spare int `json:"spare"` // spare capacity behind the slice
-}
-
-type myInts []int
-
-const rule = "case = (n, size>=1, spare capacity); elements are their indices; all six functions " +
+const rule = "case = (element kind, named or unnamed slice type, n, size>=1, offset in / spare capacity behind the backing array); " +
+	"element i is distinguishable by position wherever the kind allows; all six functions " +
 	"(Chunk, ChunkFunc, Windowed, WindowedFunc, Pairs, PairsFunc) are checked on each case against the " +
-	"definitions (piece count, piece lengths, concatenation, window/pair i = s[i:i+size]); " +
-	"non-trivial = n mod size >= 2 or size > n (with n >= 1)"
+	"definitions (piece count, piece lengths, piece i = s[i*size:...], window/pair i = s[i:i+size]; callbacks checked " +
+	"at the time of the call), input unchanged afterwards; a function is skipped (label skip:*) only when its " +
+	"result would have more than 2^16 pieces of a zero-size type; "
 
-func eqInts(a, b []int) bool {
-	if len(a) != len(b) {
-		return false
-	}
-	for i := range a {
-		if a[i] != b[i] {
-			return false
-		}
-	}
-	return true
-}
+const ntBase = "non-trivial = n mod size >= 2 or size > n (with n >= 1)"
 
-func Run(c Case) pbt.Outcome {
-	n, size := c.N, c.Size
-	back := make(myInts, n+c.Spare)
-	for i := range back {
-		back[i] = i
-	}
-	s := back[:n]
-	orig := make([]int, n)
-	copy(orig, s)
-	out := pbt.Outcome{Evals: 6}
-	if n >= 1 && (n%size >= 2 || size > n) {
-		out.NonTrivial = true
-	}
-	switch {
-	case size > n:
-		out.Labels = append(out.Labels, "size>n")
-	case n%size == 0:
-		out.Labels = append(out.Labels, "rem=0")
-	case n%size == 1:
-		out.Labels = append(out.Labels, "rem=1")
-	default:
-		out.Labels = append(out.Labels, "rem>=2")
-	}
-
-	// --- Chunk
-	checkPieces := func(name string, pieces [][]int) string {
-		want := 0
-		if n > 0 {
-			want = n / size // not (n+size-1)/size: that overflows for sizes near MaxInt
-			if n%size != 0 {
-				want++
-			}
-		}
-		if len(pieces) != want {
-			return fmt.Sprintf("%s(n=%d,size=%d): %d pieces, want ceil(n/size)=%d: %v", name, n, size, len(pieces), want, pieces)
-		}
-		var cat []int
-		for i, p := range pieces {
-			if len(p) == 0 {
-				return fmt.Sprintf("%s(n=%d,size=%d): piece %d is empty: %v", name, n, size, i, pieces)
-			}
-			if i < len(pieces)-1 && len(p) != size {
-				return fmt.Sprintf("%s(n=%d,size=%d): piece %d has length %d, want %d: %v", name, n, size, i, len(p), size, pieces)
-			}
-			if len(p) > size {
-				return fmt.Sprintf("%s(n=%d,size=%d): last piece has length %d > size: %v", name, n, size, len(p), pieces)
-			}
-			cat = append(cat, p...)
-		}
-		if !eqInts(cat, orig) {
-			return fmt.Sprintf("%s(n=%d,size=%d): concatenation %v != input %v", name, n, size, cat, orig)
-		}
-		return ""
-	}
-	chunks := slices.Chunk(s, size)
-	asInts := func(ps []myInts) [][]int {
-		r := make([][]int, len(ps))
-		for i, p := range ps {
-			r[i] = append([]int(nil), p...)
-		}
-		return r
-	}
-	chunkCopy := asInts(chunks)
-	if m := checkPieces("Chunk", chunkCopy); m != "" {
-		return pbt.Fail("%s", m)
-	}
-	var cf [][]int
-	slices.ChunkFunc(s, size, func(ch myInts) { cf = append(cf, append([]int(nil), ch...)) })
-	if m := checkPieces("ChunkFunc", cf); m != "" {
-		return pbt.Fail("%s", m)
-	}
-	if len(cf) != len(chunkCopy) {
-		return pbt.Fail("ChunkFunc/Chunk disagree (n=%d,size=%d): %v vs %v", n, size, cf, chunkCopy)
-	}
-	for i := range cf {
-		if !eqInts(cf[i], chunkCopy[i]) {
-			return pbt.Fail("ChunkFunc/Chunk disagree (n=%d,size=%d): %v vs %v", n, size, cf, chunkCopy)
-		}
-	}
-
-	// --- Windowed
-	checkWindows := func(name string, ws [][]int) string {
-		want := 0
-		if n >= size {
-			want = n - size + 1
-		}
-		if len(ws) != want {
-			return fmt.Sprintf("%s(n=%d,size=%d): %d windows, want %d: %v", name, n, size, len(ws), want, ws)
-		}
-		for i, w := range ws {
-			if !eqInts(w, orig[i:i+size]) {
-				return fmt.Sprintf("%s(n=%d,size=%d): window %d = %v, want %v", name, n, size, i, w, orig[i:i+size])
-			}
-		}
-		return ""
-	}
-	if m := checkWindows("Windowed", asInts(slices.Windowed(s, size))); m != "" {
-		return pbt.Fail("%s", m)
-	}
-	var wf [][]int
-	slices.WindowedFunc(s, size, func(w myInts) { wf = append(wf, append([]int(nil), w...)) })
-	if m := checkWindows("WindowedFunc", wf); m != "" {
-		return pbt.Fail("%s", m)
-	}
-
-	// --- Pairs
-	checkPairs := func(name string, ps [][2]int) string {
-		want := 0
-		if n >= 2 {
-			want = n - 1
-		}
-		if len(ps) != want {
-			return fmt.Sprintf("%s(n=%d): %d pairs, want %d: %v", name, n, len(ps), want, ps)
-		}
-		for i, p := range ps {
-			if p[0] != orig[i] || p[1] != orig[i+1] {
-				return fmt.Sprintf("%s(n=%d): pair %d = %v, want [%d %d]", name, n, i, p, orig[i], orig[i+1])
-			}
-		}
-		return ""
-	}
-	if m := checkPairs("Pairs", slices.Pairs(s)); m != "" {
-		return pbt.Fail("%s", m)
-	}
-	var pf [][2]int
-	slices.PairsFunc(s, func(a, b int) { pf = append(pf, [2]int{a, b}) })
-	if m := checkPairs("PairsFunc", pf); m != "" {
-		return pbt.Fail("%s", m)
-	}
-	// the input (and its spare capacity) must still be what it was
-	for i := range back {
-		if back[i] != i {
-			return pbt.Fail("input modified at index %d (n=%d,size=%d): %v", i, n, size, back)
-		}
-	}
-	return out
-}
+// ---------------------------------------------------------------- C13.enum
 
 var specEnum = pbt.Register(&pbt.Spec[Case]{
-	Property: "C13", Name: "C13.enum", Rule: "exhaustive grid n in 0..40 x size in 1..45 (thorough: n in 0..120 x size in 1..125) plus n in 0..12 x sizes next to MaxInt, 2^62, 2^32, 2^31-1; " + rule,
+	Property: "C13", Name: "C13.enum", Rule: "exhaustive grid n in 0..40 x size in 1..45 (thorough: n in 0..120 x size in 1..125), int elements, " +
+		"plus n in 0..12 x sizes next to MaxInt, 2^62, 2^32, 2^31-1; " + rule + ntBase,
 	Enum: func(shard, shards int, tier string, yield func(Case) bool) {
 		maxN, maxS := 40, 45
 		if tier == "thorough" {
@@ -183,7 +43,7 @@ var specEnum = pbt.Register(&pbt.Spec[Case]{
 		}
 		for n := 0; n <= maxN; n++ {
 			for size := 1; size <= maxS; size++ {
-				if !yield(Case{N: n, Size: size, Spare: (n + size) % 3}) {
+				if !yield(Case{N: n, Size: size, Spare: (n + size) % 3, Front: (n + 2*size) % 2, Named: n%2 == 0}) {
 					return
 				}
 			}
@@ -191,7 +51,7 @@ var specEnum = pbt.Register(&pbt.Spec[Case]{
 		// sizes near the top of the int range (size arithmetic such as n+size-1 must not overflow)
 		for n := 0; n <= 12; n++ {
 			for _, size := range []int{math.MaxInt, math.MaxInt - 1, math.MaxInt - n, math.MaxInt - n + 1, math.MaxInt/2 + 1, 1 << 62, 1 << 32, 1<<31 - 1} {
-				if size >= 1 && !yield(Case{N: n, Size: size, Spare: n % 2}) {
+				if size >= 1 && !yield(Case{N: n, Size: size, Spare: n % 2, Named: true}) {
 					return
 				}
 			}
@@ -200,19 +60,328 @@ var specEnum = pbt.Register(&pbt.Spec[Case]{
 	Run: Run, Exhaustive: true,
 })
 
+// ---------------------------------------------------------------- C13.rand
+
+func genSize(t *rapid.T, n int) int {
+	switch rapid.IntRange(0, 9).Draw(t, "size-class") {
+	case 0, 1, 2, 3:
+		return rapid.IntRange(1, n+5).Draw(t, "size")
+	case 4, 5:
+		return rapid.IntRange(1, 9).Draw(t, "size-small")
+	case 6:
+		return max(1, n+rapid.IntRange(-3, 3).Draw(t, "size-near-n"))
+	case 7:
+		return max(1, n/2+rapid.IntRange(-2, 2).Draw(t, "size-near-half"))
+	case 8:
+		return max(1, n/max(1, rapid.IntRange(1, 40).Draw(t, "pieces"))+rapid.IntRange(-1, 1).Draw(t, "size-near-quot"))
+	default:
+		return math.MaxInt - rapid.IntRange(0, n+2).Draw(t, "below-max")
+	}
+}
+
 var specRand = pbt.Register(&pbt.Spec[Case]{
-	Property: "C13", Name: "C13.rand", Rule: "rapid: n in 0..300, size in 1..n+5, spare 0..4; " + rule,
+	Property: "C13", Name: "C13.rand", Rule: "rapid: element kind drawn from all " + strconv.Itoa(len(allKinds)) + " kinds (int, string, float64 with NaN/-0, " +
+		"pointers with nils, non-comparable struct, 128-byte struct, uint8, interface values, five zero-size types), named or unnamed slice type, " +
+		"n in 0..12 / 0..300 / 300..3000 (weights 4:5:1), size in 1..n+5 / 1..9 / n+-3 / n/2+-2 / n/k+-1 / MaxInt-0..n+2, offset 0..3, spare 0..4; " + rule + ntBase,
 	Gen: func(t *rapid.T) Case {
-		n := rapid.IntRange(0, 300).Draw(t, "n")
-		size := rapid.IntRange(1, n+5).Draw(t, "size")
-		if rapid.IntRange(0, 19).Draw(t, "huge") == 0 {
-			size = math.MaxInt - rapid.IntRange(0, n+2).Draw(t, "below-max")
+		kind := rapid.SampledFrom(allKinds).Draw(t, "kind")
+		if rapid.IntRange(0, 2).Draw(t, "plain-int") == 0 {
+			kind = ""
 		}
-		return Case{N: n, Size: size, Spare: rapid.IntRange(0, 4).Draw(t, "spare")}
+		var n int
+		switch c := rapid.IntRange(0, 9).Draw(t, "n-class"); {
+		case c < 4:
+			n = rapid.IntRange(0, 12).Draw(t, "n")
+		case c < 9:
+			n = rapid.IntRange(0, 300).Draw(t, "n")
+		default:
+			n = rapid.IntRange(300, 3000).Draw(t, "n")
+		}
+		return Case{Kind: kind, Named: rapid.Bool().Draw(t, "named"), N: n, Size: genSize(t, n),
+			Front: rapid.IntRange(0, 3).Draw(t, "front"), Spare: rapid.IntRange(0, 4).Draw(t, "spare")}
 	},
 	Run: Run, Quick: 10000, Thorough: 100000,
 })
 
-func TestC13Enum(t *testing.T) { pbt.Check(t, specEnum) }
-func TestC13Rand(t *testing.T) { pbt.Check(t, specRand) }
-func TestReplay(t *testing.T)  { pbt.Replay(t) }
+// ---------------------------------------------------------------- C13.big
+
+// isqrt returns floor(sqrt(x)) for small x.
+func isqrt(x int) int {
+	r := int(math.Sqrt(float64(x)))
+	for r*r > x {
+		r--
+	}
+	for (r+1)*(r+1) <= x {
+		r++
+	}
+	return r
+}
+
+func runBig(c Case) pbt.Outcome {
+	out := Run(c)
+	// non-trivial for this unit: some quantity of the case is beyond the small grid
+	out.NonTrivial = out.Violation == "" && (c.N >= 30 || c.Size >= 30)
+	return out
+}
+
+var specBig = pbt.Register(&pbt.Spec[Case]{
+	Property: "C13", Name: "C13.big", Rule: "enumerated thresholds: for every T = 2^k+d, k in 5..13 (thorough 5..16), d in -2..2: " +
+		"(a) exactly T windows: size in {1,2,3,8,61}, n = T+size-1; (b) exactly T chunks: size in {1,2,3,7}, last chunk of length 1 and of length size; " +
+		"(c) n = T with size in {T/2-1,T/2,T/2+1,T-2,T-1,T,T+1,isqrt(T),isqrt(T)+1}; (d) size = T with n = q*T+r, q in 1..3, r in {0,1,2,T-1}; " +
+		"(e) every n in 0..3000 (thorough 0..20000) with size 1, i.e. every number of windows, chunks and pairs up to that bound, with int and with struct{} elements, and for the first quarter of that range also sizes 2, 3 and 128-byte elements (sizes 1, 2); " +
+		"int elements throughout, (a) size 2 and (b) size 3 also with 128-byte, uint8 and zero-size elements; window contents are compared in full up to 2^20 element " +
+		"comparisons per call and at 64 spread positions per window beyond; " + rule + "non-trivial = n >= 30 or size >= 30",
+	Enum: func(shard, shards int, tier string, yield func(Case) bool) {
+		maxK := 13
+		if tier == "thorough" {
+			maxK = 16
+		}
+		cnt := 0
+		emit := func(kind string, n, size int) bool {
+			if n < 0 || size < 1 {
+				return true
+			}
+			cnt++
+			if shards > 1 && cnt%shards != shard {
+				return true
+			}
+			return yield(Case{Kind: kind, N: n, Size: size, Front: cnt % 3, Spare: cnt % 2, Named: cnt%4 < 2})
+		}
+		for k := 5; k <= maxK; k++ {
+			for d := -2; d <= 2; d++ {
+				T := 1<<k + d
+				for _, size := range []int{1, 2, 3, 8, 61} { // (a)
+					if !emit("", T+size-1, size) {
+						return
+					}
+				}
+				for _, size := range []int{1, 2, 3, 7} { // (b)
+					if !emit("", (T-1)*size+1, size) || (size > 1 && !emit("", T*size, size)) {
+						return
+					}
+				}
+				r := isqrt(T)
+				for _, size := range []int{T/2 - 1, T / 2, T/2 + 1, T - 2, T - 1, T, T + 1, r, r + 1} { // (c)
+					if !emit("", T, size) {
+						return
+					}
+				}
+				for q := 1; q <= 3; q++ { // (d)
+					for _, rem := range []int{0, 1, 2, T - 1} {
+						if !emit("", q*T+rem, T) {
+							return
+						}
+					}
+				}
+				for _, kind := range []string{"wide", "u8", "z-struct", "z-arr0"} {
+					if !emit(kind, T+1, 2) || !emit(kind, (T-1)*3+1, 3) {
+						return
+					}
+				}
+			}
+		}
+		// (e) every length, so that every number of pieces up to the bound occurs exactly (thresholds that are not powers of two)
+		sweep := 3000
+		if tier == "thorough" {
+			sweep = 20000
+		}
+		for n := 0; n <= sweep; n++ {
+			if !emit("", n, 1) || !emit("z-struct", n, 1) {
+				return
+			}
+			if n <= sweep/4 && (!emit("", n, 2) || !emit("", n, 3) || !emit("wide", n, 1) || !emit("wide", n, 2)) {
+				return
+			}
+		}
+	},
+	Run: runBig, Exhaustive: true,
+})
+
+// ---------------------------------------------------------------- C13.types
+
+var specTypes = pbt.Register(&pbt.Spec[Case]{
+	Property: "C13", Name: "C13.types", Rule: "exhaustive grid n in 0..20 x size in 1..23 (thorough: 0..48 x 1..51) for each of the " + strconv.Itoa(len(allKinds)) +
+		" element kinds: int, string (with \"\"), float64 (NaN, -0, +0 compared by bits), *int (with nil, compared by identity), non-comparable struct {id, func, slice}, " +
+		"128-byte struct, uint8, interface values (int, nil, string, non-comparable []int), and the zero-size types struct{}, [0]int, [0]func(), " +
+		"struct{[0]string; struct{}}, [3]struct{} (only counts and lengths can be checked for those); named and unnamed slice types alternate; " + rule + ntBase,
+	Enum: func(shard, shards int, tier string, yield func(Case) bool) {
+		maxN, maxS := 20, 23
+		if tier == "thorough" {
+			maxN, maxS = 48, 51
+		}
+		for ki, kind := range allKinds {
+			for n := 0; n <= maxN; n++ {
+				for size := 1; size <= maxS; size++ {
+					if !yield(Case{Kind: kind, N: n, Size: size, Front: (n + size) % 3, Spare: (n + ki) % 2, Named: (n+size+ki)%2 == 0}) {
+						return
+					}
+				}
+			}
+		}
+	},
+	Run: Run, Exhaustive: true,
+})
+
+// ---------------------------------------------------------------- C13.zst
+
+func runZst(c Case) pbt.Outcome {
+	out := Run(c)
+	// non-trivial for this unit: more than one piece of a zero-size type was due (all elements share an address),
+	// or the length is beyond what 32 bits / a float64 mantissa hold
+	out.NonTrivial = out.Violation == "" && !out.Skipped && c.N >= 2
+	return out
+}
+
+// hugeLengths: 2^k+d around the 8/16/32-bit, float32- and float64-mantissa and int limits.
+func hugeLengths(yield func(n int) bool) {
+	if bits.UintSize < 64 {
+		return
+	}
+	for _, k := range []int{8, 15, 16, 24, 25, 31, 32, 33, 52, 53, 54, 55, 60, 62} {
+		for d := -3; d <= 3; d++ {
+			if !yield(1<<k + d) {
+				return
+			}
+		}
+	}
+	for _, m := range []int{3, 5, 7} { // not next to a power of two: m*2^52+d has a 55-bit mantissa
+		for d := -2; d <= 2; d++ {
+			if !yield(m<<52 + d) {
+				return
+			}
+		}
+	}
+	for d := 0; d <= 6; d++ {
+		if !yield(math.MaxInt - d) {
+			return
+		}
+	}
+}
+
+var zstKinds = []string{"z-struct", "z-arr0", "z-nc", "z-pad", "z-arrz"}
+
+var specZst = pbt.Register(&pbt.Spec[Case]{
+	Property: "C13", Name: "C13.zst", Rule: "zero-size element types (struct{}, [0]int, [0]func(), struct{[0]string; struct{}}, [3]struct{}), whose slices can be up to MaxInt long without memory " +
+		"and whose elements all share one address; only counts and lengths of the pieces can be checked. Enumerated: n in 0..24 x size in 1..27 per type; " +
+		"n = 2^k+d (k in 8,15,16,24,25,31,32,33,52..55,60,62; d in -3..3), m*2^52+d (m in 3,5,7), MaxInt-0..6, each with chunk sizes n/q+e (q in 1,2,3,4,5,7,8,1000,1024,1025; e in -1..1), " +
+		"2^(k-1), 2^(k-2), 2^52, 2^53, MaxInt, MaxInt-1 and window sizes n-w (w in 0..3, 1023..1025, 5000). rapid: n = random bit length 1..63 with random lower bits or +-3 next to a power of two, " +
+		"size = n/q+e (q 1..3000), n-w (w 0..5000), or uniform in 1..n+5; " + rule + "non-trivial = n >= 2 and at least one of Chunk/Windowed/Pairs (with its Func variant) was evaluated",
+	Enum: func(shard, shards int, tier string, yield func(Case) bool) {
+		cnt := 0
+		emit := func(kind string, n, size int) bool {
+			if n < 0 || size < 1 {
+				return true
+			}
+			cnt++
+			front, spare := cnt%3, cnt%2
+			if n > math.MaxInt-8 {
+				front, spare = 0, 0
+			}
+			return yield(Case{Kind: kind, N: n, Size: size, Front: front, Spare: spare, Named: cnt%4 < 2})
+		}
+		for _, kind := range zstKinds {
+			for n := 0; n <= 24; n++ {
+				for size := 1; size <= 27; size++ {
+					if !emit(kind, n, size) {
+						return
+					}
+				}
+			}
+		}
+		ok := true
+		hugeLengths(func(n int) bool {
+			kind := func() string { return zstKinds[cnt%len(zstKinds)] }
+			for _, q := range []int{1, 2, 3, 4, 5, 7, 8, 1000, 1024, 1025} {
+				for e := -1; e <= 1; e++ {
+					if ok = emit(kind(), n, n/q+e); !ok {
+						return false
+					}
+					if ok = emit("z-struct", n, n/q+e); !ok {
+						return false
+					}
+				}
+			}
+			top := bits.Len(uint(n)) - 1 // n = 2^top + ...
+			for _, size := range []int{1 << (top - 1), 1 << (top - 2), 1<<(top-1) + 1, 1<<(top-1) - 1, 1 << 52, 1 << 53, math.MaxInt, math.MaxInt - 1} {
+				if ok = emit(kind(), n, size); !ok {
+					return false
+				}
+			}
+			for _, w := range []int{0, 1, 2, 3, 1023, 1024, 1025, 5000} {
+				if ok = emit(kind(), n, n-w); !ok {
+					return false
+				}
+			}
+			return true
+		})
+	},
+	Gen: func(t *rapid.T) Case {
+		kind := rapid.SampledFrom(zstKinds).Draw(t, "kind")
+		nbits := rapid.IntRange(1, bits.UintSize-1).Draw(t, "bits")
+		var n int
+		if rapid.Bool().Draw(t, "near-pow2") {
+			n = 1<<(nbits-1) + rapid.IntRange(-3, 3).Draw(t, "d")
+			if nbits == bits.UintSize-1 && rapid.Bool().Draw(t, "top") {
+				n = math.MaxInt - rapid.IntRange(0, 6).Draw(t, "below-max")
+			}
+		} else {
+			n = 1<<(nbits-1) | rapid.IntRange(0, 1<<(nbits-1)-1).Draw(t, "low")
+		}
+		if n < 0 {
+			n = 0
+		}
+		var size int
+		switch rapid.IntRange(0, 3).Draw(t, "size-class") {
+		case 0, 1:
+			size = n/rapid.IntRange(1, 3000).Draw(t, "q") + rapid.IntRange(-1, 1).Draw(t, "e")
+		case 2:
+			size = n - rapid.IntRange(0, 5000).Draw(t, "w")
+		default:
+			hi := n
+			if hi < math.MaxInt-5 {
+				hi += 5
+			}
+			size = rapid.IntRange(1, hi).Draw(t, "size")
+		}
+		if size < 1 {
+			size = 1
+		}
+		c := Case{Kind: kind, Named: rapid.Bool().Draw(t, "named"), N: n, Size: size}
+		if n < math.MaxInt-8 {
+			c.Front, c.Spare = rapid.IntRange(0, 3).Draw(t, "front"), rapid.IntRange(0, 4).Draw(t, "spare")
+		}
+		return c
+	},
+	Run: runZst, Quick: 3000, Thorough: 30000,
+})
+
+// ---------------------------------------------------------------- C13.nested
+
+var specNested = pbt.Register(&pbt.Spec[Case]{
+	Property: "C13", Name: "C13.nested", Rule: "exhaustive grid n in 0..14 x size in 1..16 x inner size in 1..5 for element kinds int, non-comparable struct and struct{}: " +
+		"the callbacks of ChunkFunc, WindowedFunc and PairsFunc call all six functions again on the piece they were given (inner size) and on the whole input, every inner and outer " +
+		"result is checked against the definitions; then Chunk, Windowed and Pairs results of the input are kept while the same functions run on a second, different slice " +
+		"and their result containers are overwritten by the caller, and all kept results are checked afterwards (a result must not depend on later calls); " + ntBase,
+	Enum: func(shard, shards int, tier string, yield func(Case) bool) {
+		for _, kind := range []string{"", "nc", "z-struct"} {
+			for n := 0; n <= 14; n++ {
+				for size := 1; size <= 16; size++ {
+					for size2 := 1; size2 <= 5; size2++ {
+						if !yield(Case{Mode: "nested", Kind: kind, N: n, Size: size, Size2: size2, Front: n % 2, Spare: size % 2, Named: (n+size2)%2 == 0}) {
+							return
+						}
+					}
+				}
+			}
+		}
+	},
+	Run: Run, Exhaustive: true,
+})
+
+func TestC13Enum(t *testing.T)   { pbt.Check(t, specEnum) }
+func TestC13Rand(t *testing.T)   { pbt.Check(t, specRand) }
+func TestC13Big(t *testing.T)    { pbt.Check(t, specBig) }
+func TestC13Types(t *testing.T)  { pbt.Check(t, specTypes) }
+func TestC13Zst(t *testing.T)    { pbt.Check(t, specZst) }
+func TestC13Nested(t *testing.T) { pbt.Check(t, specNested) }
+func TestReplay(t *testing.T)    { pbt.Replay(t) }
